@@ -84,6 +84,21 @@ func validateTheory(e *Engine, dirs []string) int {
 			if x.Ellipsis != token.NoPos && len(x.Args) == 0 {
 				report("CallExpr.Ellipsis implies an argument", n.Pos())
 			}
+		case *ast.GenDecl:
+			for _, sp := range x.Specs {
+				ok := false
+				switch sp.(type) {
+				case *ast.TypeSpec:
+					ok = x.Tok == token.TYPE
+				case *ast.ImportSpec:
+					ok = x.Tok == token.IMPORT
+				case *ast.ValueSpec:
+					ok = x.Tok == token.CONST || x.Tok == token.VAR
+				}
+				if !ok {
+					report("GenDecl.Specs match the keyword", n.Pos())
+				}
+			}
 		case *ast.DeclStmt:
 			if _, ok := x.Decl.(*ast.GenDecl); !ok {
 				report("DeclStmt.Decl is a GenDecl", n.Pos())
